@@ -373,11 +373,11 @@ pub fn property(ctx: &Ctx) -> Property {
             "the semantic positioning of image/gradient sources under random CTMs is judged by C12/C13",
         ],
         parts: vec![
-            part("fill", 25_000, 700_000, move || fill_strategy(&c1), check_fill),
-            part("stroke", 6_000, 200_000, stroke_strategy, check_stroke),
-            part("singular", 6_000, 150_000, move || singular_strategy(&c2), check_singular),
-            part("device", 10_000, 250_000, device_strategy, check_device),
-            part("restore", 8_000, 200_000, move || restore_strategy(&c3), check_restore),
+            part("fill", 80_000, 1_500_000, move || fill_strategy(&c1), check_fill),
+            part("stroke", 16_000, 300_000, stroke_strategy, check_stroke),
+            part("singular", 20_000, 300_000, move || singular_strategy(&c2), check_singular),
+            part("device", 30_000, 500_000, device_strategy, check_device),
+            part("restore", 30_000, 400_000, move || restore_strategy(&c3), check_restore),
         ],
         min_class_fraction: vec![("fill", "src:image", 0.1), ("fill", "xf:general", 0.05), ("fill", "xf:rotation", 0.05), ("stroke", "dashed", 0.1), ("stroke", "curved-input", 0.25), ("restore", "pop_layer", 0.3)],
         panic_is_violation: false,
